@@ -574,19 +574,25 @@ func (s *Module) AddMPTNodes(nodes [][]byte) error {
 		return fmt.Errorf("MPT nodes were not requested: current state sync stage is %d", s.syncStage)
 	}
 
+	// A bad node stops processing of the batch, but the nodes before it are
+	// already restored, so the pool must be checked for completeness anyway
+	// (nothing will be requested from peers if it's empty).
+	var resErr error
 	for _, nBytes := range nodes {
 		var n mpt.NodeObject
 		r := io.NewBinReaderFromBuf(nBytes)
 		n.DecodeBinary(r) // we're OK with counting depth from 0 for every node, maintaining it for every node in pool is excessive.
 		if r.Err != nil {
-			return fmt.Errorf("failed to decode MPT node: %w", r.Err)
+			resErr = fmt.Errorf("failed to decode MPT node: %w", r.Err)
+			break
 		}
 		if n.Node.Type() == mpt.EmptyT {
-			return errors.New("unexpected empty MPT node")
+			resErr = errors.New("unexpected empty MPT node")
+			break
 		}
-		err := s.restoreNode(n.Node)
-		if err != nil {
-			return err
+		resErr = s.restoreNode(n.Node)
+		if resErr != nil {
+			break
 		}
 	}
 	if s.mptpool.Count() == 0 {
@@ -601,7 +607,7 @@ func (s *Module) AddMPTNodes(nodes [][]byte) error {
 			zap.Uint32("blockHeight", s.blockHeight),
 		)
 	}
-	return nil
+	return resErr
 }
 
 // AddContractStorageItems adds a batch of key-value pairs for storage-based sync.
